@@ -1,9 +1,9 @@
 SPECIFICATION Spec
 CONSTANTS
-  MaxOps = 5
-  Defect = "none"
-  Emit = TRUE
-  WithSource = FALSE
+  MaxOps = 4
+  Defect = "alias_c"
+  Emit = FALSE
+  WithSource = TRUE
 INVARIANT FlagSound
 INVARIANT Paired
 INVARIANT EmitOK
